@@ -291,8 +291,13 @@ fn symhist(ops: &str) -> String {
                 }));
                 if res.is_ok() { String::from("ok") } else { String::from("panic") }
             }
-            "bi" | "bq" => {
-                let ty = if code == "bi" { Type::Int(Some(32), IsConst::False) } else { Type::Qubit };
+            "bi" | "bq" | "bg" | "bh" => {
+                let ty = match code {
+                    "bi" => Type::Int(Some(32), IsConst::False),
+                    "bg" => Type::Gate(1, 2),
+                    "bh" => Type::HardwareQubit,
+                    _ => Type::Qubit,
+                };
                 // a successful binding is followed by what the table says the new id denotes
                 match t.new_binding(name, &ty) {
                     Ok(id) => format!("Ok({:?})|{}|{:?}", id, t[&id].name(), t[&id].symbol_type()),
@@ -310,7 +315,10 @@ fn symhist(ops: &str) -> String {
             break;
         }
     }
-    let _ = write!(out, "],\"len_current_scope\":{}}}", t.len_current_scope());
+    // the listing observers: "name|id|ncl|nqu" per gate, "name|id" per hardware qubit
+    let gates: Vec<String> = t.gates().map(|(n, id, c, q)| js(&format!("{}|{:?}|{}|{}", n, id, c, q))).collect();
+    let hw: Vec<String> = t.hardware_qubits().iter().map(|(n, id)| js(&format!("{}|{:?}", n, id))).collect();
+    let _ = write!(out, "],\"gates\":[{}],\"hardware_qubits\":[{}],\"len_current_scope\":{}}}", gates.join(","), hw.join(","), t.len_current_scope());
     out
 }
 
